@@ -23,6 +23,15 @@ pub fn run(tier: Tier) -> i32 {
     let mut r2 = explore::dfs(&w2, &cfg2);
     r2.found.retain(|f| f.violation.signature.starts_with("C05/") || f.violation.signature.starts_with("panic/"));
     rep.add_dfs("full-one-slot-server", 1, d2, &r2);
+    // sessions that end and start again (time-out tick, server kick, client disconnect packet, payloads in between)
+    let d3 = tier.pick(7, 9);
+    let w3 = HsWorld::new(super::hsworld::c05_lifecycle_fix());
+    let cfg3 = DfsCfg { depth: d3, threads: explore::threads(), wall_cap_s: tier.pick(100.0, 1500.0), max_signatures: 8 };
+    let mut r3 = explore::dfs(&w3, &cfg3);
+    rep.vac("lifecycle_states_after_a_disconnect_event", (r3.flags_seen & 2 != 0) as u64);
+    rep.vac("lifecycle_timeout_ticks", (r3.flags_seen & 16 != 0) as u64);
+    r3.found.retain(|f| f.violation.signature.starts_with("C05/") || f.violation.signature.starts_with("panic/"));
+    rep.add_dfs("sessions-end-and-restart", 2, d3, &r3);
     // scale class: the table of used connect tokens (2048 entries) is full of older tokens; a token used one
     // second ago from address A must still be refused from address B after other tokens were presented
     {
@@ -147,7 +156,7 @@ pub fn replay(j: &J) -> i32 {
         };
     }
     let idx = j.get("scenario_index").and_then(|x| x.as_i()).unwrap_or(0);
-    let mut w = HsWorld::new(if idx == 1 { super::hsworld::c05_full_fix() } else { c05_fix() });
+    let mut w = HsWorld::new(if idx == 2 { super::hsworld::c05_lifecycle_fix() } else if idx == 1 { super::hsworld::c05_full_fix() } else { c05_fix() });
     let acts: Vec<usize> = j
         .get("actions")
         .and_then(|a| a.as_arr())
